@@ -15,7 +15,8 @@ CONSTANTS MaxD,        \* behaviour length
           NilOps,      \* TRUE: also apply wrappers to empty slots
           MaxNodes,    \* bound on the size of a slot's tree
           EmitAll,     \* TRUE: print behaviours
-          Fresh        \* TRUE: every string argument gets its own words (taint families)
+          Fresh,       \* TRUE: every string argument gets its own words (taint families)
+          HopLast      \* n > 0: directed search, the last n steps are hops and hops occur only there
 
 VARIABLES hist,        \* the steps taken so far
           nw,          \* number of words allocated (Fresh)
@@ -58,8 +59,11 @@ PartsPool(sl) ==
   \cup {<<Part("lit", s, 0), Part("lit", <<SP>>, 0), Part("arg", t, 0)>> : s \in SH, t \in SH2}
   \cup {<<Part("safe", t, 0), Part("lit", <<SEP>>, 0), Part("arg", s, 0)>> : s \in SH, t \in SH2}
   \cup {<<Part("lit", s, 0), Part("lit", <<SP>>, 0), Part("err", E, r)>> : s \in SH2, r \in NonNil(sl)}
+\* formats with one %w: after ": ", after a space, glued to the text, in front
 WPartsPool(sl) ==
   {<<Part("lit", s, 0), Part("lit", <<SEP>>, 0), Part("w", E, r)>> : s \in SH2, r \in NonNil(sl)}
+  \cup {<<Part("lit", s, 0), Part("lit", <<SP>>, 0), Part("w", E, r)>> : s \in SH2, r \in NonNil(sl)}
+  \cup {<<Part("lit", s, 0), Part("w", E, r)>> : s \in SH2, r \in NonNil(sl)}
   \cup {<<Part("w", E, r), Part("lit", <<SP>>, 0), Part("lit", s, 0)>> : s \in SH2, r \in NonNil(sl)}
 
 FamsIn(v) == {Fam(AllNodes(v)[i], <<>>) : i \in 1..Len(AllNodes(v))} \cap DecodableFam
@@ -140,7 +144,10 @@ Step1(sl) ==
         \E i \in NonNil(sl) : \E j \in FirstFree(sl) : Take(Step(o, i, <<i, j>>, E, E, E, 0, E))
   \/ On("GoWrap2") /\ \E p \in Pairs(sl) : \E s \in {<<SP>>, <<SEP>>, <<NL>>} :
         Take(Step("GoWrap2", p[1], <<p[1], p[2]>>, s, E, E, 0, E))
-  \* transfer
+
+
+\* transfer
+StepHop(sl) ==
   \/ On("Hop") /\ \E i \in NonNil(sl) : Take(Step("Hop", i, <<i>>, E, E, E, 0, <<"*">>))
   \* hop to a process that knows only a subset of the families occurring in the value
   \/ On("HopU") /\ \E i \in NonNil(sl) : \E k \in KnownSets(sl[i]) :
@@ -152,7 +159,11 @@ GInit == Init /\ hist = <<>> /\ nw = 0 /\ fin = FALSE
 \* once (in simulation mode TLC evaluates invariants on every successor it
 \* generates, not only on the one it follows)
 Finish == Len(hist) = MaxD /\ ~fin /\ fin' = TRUE /\ UNCHANGED <<slots, net, reg, taint, hist, nw>>
-GNext == (Len(hist) < MaxD /\ Step1(slots)) \/ Finish
+GNext ==
+  \/ /\ Len(hist) < MaxD
+     /\ IF HopLast = 0 THEN Step1(slots) \/ StepHop(slots)
+        ELSE IF Len(hist) < MaxD - HopLast THEN Step1(slots) ELSE StepHop(slots)
+  \/ Finish
 
 GSpec == GInit /\ [][GNext]_vars
 
